@@ -51,7 +51,7 @@ def run(chk):
             elif w == "hist":
                 if "!ro" in o: chk.violation("a URI passed as read-only argument was modified", {"request": rq, "build": fl, "impl": o})
                 elif "!src" in o: chk.violation("a text handed to the parser was written to by a later operation (borrowed text altered)", {"request": rq, "build": fl, "impl": o})
-    lib.wrapper_check(chk, exes, [(enc_s(t), enc_s("s://h/a")) for t in texts], ("makeowner",), "uriMakeOwner does not behave like uriMakeOwnerMm with the default manager (%s)")
+    lib.wrapper_check(chk, exes, [(enc_s(t), enc_s("s://h/a")) for t in texts], ("makeowner", "normalize", "normalizeex"), "uriMakeOwner / uriNormalizeSyntax[Ex] do not behave like the ...Mm forms with the documented defaults: value or ownership differs (%s)")
     if corr and not chk.violations:
         rq, fl, o, m = corr[0]
         chk.violation("correspondence broken: memory-tier model and implementation disagree (%d cases)" % len(corr),
